@@ -410,4 +410,28 @@ def main(pid, run):
     except subprocess.TimeoutExpired as e:
         log("INFRASTRUCTURE: timeout %s" % e)
         rc = 2
+    except Exception:                                   # noqa: BLE001
+        # An exception nobody expected.  If the code under test raised it on an input the
+        # correspondence generates (and handles on the unchanged tree), the tie between model and
+        # implementation is broken: report it like any other broken tie (search for a failing
+        # input, then VIOLATION).  If no frame of the traceback lies in the tree under test it is
+        # a fault of the machinery: exit 2.
+        tb = traceback.format_exc()
+        tree = os.path.realpath(os.environ.get("OQUPY_REPO", "/repo"))
+        frames = [l for l in tb.splitlines() if l.strip().startswith("File ")]
+        if not any(('"' + tree + os.sep) in l for l in frames):
+            log("INFRASTRUCTURE: unexpected exception in the machinery\n" + tb[-3000:])
+            rc = 2
+        else:
+            log("the implementation raised during the correspondence run:\n" + tb[-1500:])
+            res = Result(pid, a.tier, seed, level="proof")
+            res.oblige("correspondence run: the implementation raised on an input of the "
+                       "correspondence", False, tb[-3000:])
+            mod = sys.modules.get(getattr(run, "__module__", ""))
+            srch = getattr(mod, "search", None)
+            try:
+                rc = finish(res, (lambda r: srch(r)) if srch is not None else None)
+            except Exception:                           # noqa: BLE001
+                log("INFRASTRUCTURE: " + traceback.format_exc()[-2000:])
+                rc = 2
     sys.exit(rc)
